@@ -21,7 +21,13 @@ T3  monitor                   : every attempt compared byte for byte with what w
                                 attempt (recovered by dispatch: entry marked as broken) and restarts that find a leftover
                                 ID.meta.new beside the intact ID.meta: the credential scan covers every file whatever its suffix
                                 (.meta_broken, .meta.new), the per-attempt rules whatever the target was handed before it
-                                panicked, the pending rule every attempt step after such a restart
+                                panicked, the pending rule every attempt step after such a restart;
+                                header fields that speak about the envelope (TLS-Required in every spelling, Return-Path, ...)
+                                whatever the accepted flags are: the override handed over is the accepted one; leftover
+                                ID.header / ID.body / ID.meta.new files of the message's own id in the spool before it is
+                                stored: every attempt still gets the accepted bytes, and right after acceptance / at rest the
+                                header and body files are the accepted bytes, ID.meta one JSON document
+                                (C10/spool-content-changed)
 """
 import os
 import re
@@ -97,13 +103,19 @@ def run(c):
         "(connection state of the authenticated session attached) or from the spool, in a retry, after a restart - in 10% of the random cases and a 24-case grid, followed by restarts and attempt steps that must not take place; "
         "restarts that find a leftover ID.meta.new of an interrupted meta-data rewrite beside the intact ID.meta (empty, one byte, a quarter, half, cut inside a recipient / at the sender string / before the closing brace / "
         "before the final newline / inside a multi-byte character, complete) at 25% of the random restart steps and in a 60-case grid; "
+        "header fields that speak about the envelope - TLS-Required in 18 spellings (case, no blank, folded, blank-only continuation, trailing blanks, blank before the colon, twice, Yes+No in both orders, "
+        "Yes, comment, word folded in the middle, empty, quoted, X- prefix, None), Return-Path, Delivered-To, X-Original-To, Original-Recipient, X-Envelope-*, 8bit/charset fields - at the top / in the middle / at the bottom / spread, "
+        "in 30% of the random cases INDEPENDENTLY of the accepted override and REQUIRETLS flags, plus a 72-case grid spelling x (override, REQUIRETLS) x histories with attempts read back from the spool; "
+        "leftover files ID.header / ID.body / ID.meta.new of the message's own id lying in the spool when it is stored (longer by 1 B - 70 kB, same length, shorter, empty; header leftover = another message's well-formed header, "
+        "meta leftover = another message's JSON document) in 20% of the random cases and an 80-case grid x (first attempt over the spool's body file, in-process retry, after a restart, after R / a crash before Commit, at rest); "
         "(d) the same behind a real SMTP endpoint and pipeline over TCP (AUTH PLAIN, SMTPUTF8, REQUIRETLS, BODY=8BITMIME, TLS-Required: No header, dot-stuffed DATA, bodies above the 1 MiB spill threshold, addresses that are not valid UTF-8; "
-        "10% with the queue shut down right before Commit and restarted before the first attempt; bounce pipeline attached in 80%, Bcc field from the client in 20%; the same edge grid: empty body, a lone line end, 4 KiB / 32 KiB / 1 MiB boundaries, client header = CRLF only); "
+        "TLS-Required spellings and the other envelope fields on top of 35% of the client headers, leftover files of the id the endpoint gave the message in 20%; 10% with the queue shut down right before Commit and restarted before the first attempt; bounce pipeline attached in 80%, Bcc field from the client in 20%; the same edge grid: empty body, a lone line end, 4 KiB / 32 KiB / 1 MiB boundaries, client header = CRLF only); "
         "distinct = distinct op lines",
         explanation="theorems over all headers, bodies, envelopes and histories; decide over the regenerated field table and code skeleton; "
         "models tied to textproto and queue.go by differential runs; the monitor compares every attempt with what was accepted, greps the spool for the credentials, "
         "and requires that a message with pending recipients is attempted when the history says so and is complete and unaltered in the spool whenever the queue is at rest; "
-        "failure reports generated between attempts (and by a second queue sharing header value and metadata) must leave every later attempt and the source's own header / metadata as accepted",
+        "failure reports generated between attempts (and by a second queue sharing header value and metadata) must leave every later attempt and the source's own header / metadata as accepted; "
+        "the store step is 'file := new content' (C10_store_overwrites_leftovers; os.Create pinned by the regenerated writer list), the envelope handed over never depends on the header (C10_override_does_not_depend_on_the_header)",
         search=search,
     )
 
